@@ -37,6 +37,8 @@ def gen_config(rnd, S, opts=None):
         sim["volume_limit"] = True
     if opts.get("trade_handler_acts"):
         S["_trade_handler_acts"] = True  # the strategy's TRADE handler sends follow-up orders and cancels other open orders while the matching pass runs
+    if opts.get("pre_open_orders"):
+        S["_pre_open"] = True            # a handler subscribed to EVENT.BEFORE_TRADING (GLOBAL phase: the order APIs are allowed) trades before the open
     if opts.get("otp"):
         S["_otp"] = True                 # order_target_portfolio calls with per-instrument limit prices
     if opts.get("frac_fut"):
@@ -211,6 +213,12 @@ def run_trading(rnd, S, cfgk, intensity=1.0, script=None, analyser=False, ids=No
                 finally:
                     follow["busy"] = False
         subscribe_event(EVENT.TRADE, on_trade)
+        if S.get("_pre_open") and reseed_key is None:
+            def on_before_trading_event(context, event):
+                # orders sent before the open must rest until the bar (finding F43: they used to be filled at the coming close at 00:00)
+                if srnd.random() < 0.5:
+                    ops(context, "BT")
+            subscribe_event(EVENT.BEFORE_TRADING, on_before_trading_event)
 
     follow = {"busy": False, "rnd": random.Random(rnd.random()) if (S.get("_c06_plans") or S.get("_trade_handler_acts")) else None}
 
